@@ -563,6 +563,22 @@ extern "C" char *__wrap_setlocale(int cat, const char *loc) {
 }
 #endif
 struct TArg { const std::vector<std::string> *lines; size_t k, T; std::vector<std::string> out; pthread_barrier_t *bar; unsigned yield_seed; };
+// a call made with an error slot that still holds an earlier error (the caller did not clear it): the library warns on stderr and leaves the slot
+// alone; result discarded - this only exercises the overwrite path, concurrently in threads mode
+static void run_dirty(const std::string &line) {
+  Ctx c;
+  c.tok = split(line);
+  callfn f = lookup(c.tok[0]);
+  if (!f) return;
+  xrl_error *sent = NULL;
+  ElementDensity(-5, &sent);
+  c.mode = 2; c.slot = sent;
+  f(c);
+  if (c.slot) xrl_error_free(c.slot);
+  c.slot = NULL;
+  c.reset_args();
+}
+
 static void *tmain(void *p) {
   TArg *a = (TArg *) p;
   pthread_barrier_wait(a->bar);
@@ -572,6 +588,7 @@ static void *tmain(void *p) {
     s = s * 1664525u + 1013904223u;
     if (a->yield_seed && (s >> 28) == 0) sched_yield();
     a->out.push_back(run_simple((*a->lines)[i]));
+    if (((s >> 20) & 7) == 0) run_dirty((*a->lines)[i]);
   }
   live_workers--;
   return NULL;
@@ -678,6 +695,7 @@ int main(int argc, char **argv) {
   } else if (mode.rfind("threads:", 0) == 0) {
     g_share_user_crystals = true;
     if (getenv("XRLCALL_LOCALE") && !setlocale(LC_ALL, harness_locale())) setlocale(LC_ALL, "C");
+    { int nul = open("/dev/null", O_WRONLY); if (nul >= 0) { dup2(nul, 2); close(nul); } }   // overwrite warnings of the dirty-slot calls; sanitizer reports go to log_path
     size_t T = (size_t) atoi(mode.c_str() + 8);
     const char *p = strchr(mode.c_str() + 8, ':');
     unsigned ys = p ? (unsigned) atoi(p + 1) : 0;
